@@ -24,7 +24,7 @@
    [numeric s]: the kinds whose elements are numbers. *)
 From Coq Require Import ZArith NArith QArith List Bool.
 From MptV Require Import C19.IterModel C19.IterSpec C19.IterProofs C19.IterText C19.IterString C19.IterRefine
-  C19.IterClosed C19.IterGrammar.
+  C19.IterClosed C19.IterGrammar C19.IterGrammarC C19.IterProfile C19.IterDenote C19.IterAccept C19.IterFeed.
 Import ListNotations.
 
 (* The documented loop - read the current value, advance, stop when advance reports
@@ -132,15 +132,101 @@ Theorem C19_linear_equal_steps : forall a b n i,
   (lin_closed a b n (i + 1) - lin_closed a b n i == (b - a) / (Z.of_N n # 1))%Q.
 Proof. exact lin_closed_step. Qed.
 
-(* The description parser accepts only texts of the grammar of IterGrammar.v, and only
-   with the count and bounds standing at the named positions; everything else is refused. *)
-Theorem C19_accepted_in_grammar :
-  forall rnd t d, parse_create rnd (Some t) = Some d -> create_form rnd t d.
-Proof. exact create_sound. Qed.
+(* mpt_iterator_create accepts EXACTLY the texts of the grammar of IterGrammar.v (blank*,
+   lin|linear ( count [: a b] ), range ( a b [: step] ), fac|fact|factor ( count [: b [: f [: i]]] )
+   or ( count : b :: i ), value lists, empty text), with the count and numbers standing at the
+   named positions of the text; the grammar is unambiguous.  The tokens are what the libc table
+   answers at that offset through mpt_cuint32 / mpt_cdouble, so no assumption on the table is needed. *)
+Theorem C19_accepted_iff_in_grammar :
+  forall rnd t d, parse_create rnd (Some t) = Some d <-> create_form rnd t d.
+Proof. exact create_iff. Qed.
 
 Theorem C19_malformed_refused :
   forall rnd t, (forall d, ~ create_form rnd t d) -> parse_create rnd (Some t) = None.
 Proof. exact malformed_refused. Qed.
+
+Theorem C19_grammar_unambiguous :
+  forall rnd t d1 d2, create_form rnd t d1 -> create_form rnd t d2 -> d1 = d2.
+Proof. exact create_form_unique. Qed.
+
+(* Profile descriptions (iterator_profile.c: lin / bound / poly over a grid) and polynomial
+   descriptions (iterator_poly.c: longest run of <= 128 coefficients, shifts behind the first ':'):
+   parser = grammar of IterProfile.v, both directions. *)
+Theorem C19_profile_iff_in_grammar :
+  forall grid t d, parse_profile grid (Some t) = Some d <-> profile_form grid t d.
+Proof. exact profile_iff. Qed.
+
+Theorem C19_poly_accepted_in_grammar :
+  forall t p grid d, poly_of_text (Some t) p grid = Some d -> poly_form t p grid d.
+Proof. exact poly_sound. Qed.
+Theorem C19_poly_in_grammar_accepted :
+  forall t p grid d, poly_form t p grid d -> poly_of_text (Some t) p grid = Some d.
+Proof. exact poly_complete. Qed.
+
+(* What a description denotes: the source a constructor builds from it denotes exactly the
+   sequence [desc_denotes] writes down by count and formula (for every arithmetic). *)
+Theorem C19_build_denotes :
+  forall (rnd : Q -> fv) d s, build rnd d = Some s -> desc_denotes rnd d (denoted rnd (abs s)).
+Proof. exact build_denotes. Qed.
+
+(* Accepted text => in the grammar, denotes that sequence, and the iterator stands at its start. *)
+Theorem C19_created_denotes :
+  forall (rnd : Q -> fv) t s, create rnd (Some t) = Some s ->
+    exists d, create_form rnd t d /\ desc_denotes rnd d (denoted rnd (abs s)) /\
+              inv rnd s /\ remaining rnd (abs s) = denoted rnd (abs s).
+Proof. exact created_denotes. Qed.
+
+Theorem C19_profile_denotes :
+  forall (rnd : Q -> fv) grid t s, profile rnd grid (Some t) = Some s ->
+    exists d, profile_form grid t d /\ desc_denotes rnd d (denoted rnd (abs s)) /\
+              inv rnd s /\ remaining rnd (abs s) = denoted rnd (abs s).
+Proof. exact profile_denotes. Qed.
+
+(* Polynomial element in exact arithmetic: sum_j m_j (x + s_j)^(n-1-j). *)
+Theorem C19_poly_exact :
+  forall cs x, cs <> [] -> exists q,
+    poly_eval rexact (map fin2 cs) (Fin x) = Fin q /\ (q == qpoly cs x)%Q.
+Proof. exact poly_exact. Qed.
+
+(* mpt_values_linear / mpt_values_bound: for points >= 2 one write per element, element i at
+   index i*ld, first = min/left, last = max/right, interior min + i*dv resp. the middle value;
+   in exact arithmetic element i is the closed form; one point / no point spelled out. *)
+Theorem C19_values_linear_spec :
+  forall (rnd : Q -> fv) points ld mn mx, (2 <= points)%Z ->
+    values_linear rnd points ld mn mx =
+    map (fun i => ((Z.of_nat i * ld)%Z, vlin_at rnd points mn mx i)) (seq 0 (Z.to_nat points)).
+Proof. exact values_linear_spec. Qed.
+Theorem C19_values_bound_spec :
+  forall (rnd : Q -> fv) points ld l c r, (2 <= points)%Z ->
+    values_bound rnd points ld l c r =
+    map (fun i => ((Z.of_nat i * ld)%Z, vbound_at points l c r i)) (seq 0 (Z.to_nat points)).
+Proof. exact values_bound_spec. Qed.
+Theorem C19_values_small :
+  forall (rnd : Q -> fv) ld mn mx l c r,
+    values_linear rnd 1 ld mn mx = [(0%Z, mn); (0%Z, mx)] /\
+    values_bound rnd 1 ld l c r = [(0%Z, fdiv rnd (fadd rnd (fadd rnd l c) r) (of_N 3))] /\
+    (forall points, (points < 1)%Z -> values_linear rnd points ld mn mx = [] /\ values_bound rnd points ld l c r = []).
+Proof. exact values_small. Qed.
+Theorem C19_values_linear_exact :
+  forall points a b i, (2 <= points)%Z -> (i < Z.to_nat points)%nat ->
+    exists q, vlin_at rexact points (Fin a) (Fin b) i = Fin q /\
+              (q == a + (Z.of_nat i # 1) * ((b - a) / (points - 1 # 1)))%Q.
+Proof. exact values_linear_exact. Qed.
+
+(* Constructors fed from another iterator (mpt_range_set, TypeIteratorPtr values), for sources
+   that serve numbers: a range takes exactly the next three elements as min, max, step and leaves
+   the source behind them; a count cannot be read from numbers served as double, so lin/fac are
+   refused.  (Text iterators as source are modelled and compared, see notes.) *)
+Theorem C19_range_from_numbers :
+  forall (rnd : Q -> fv) s d s', inv rnd s -> numeric s = true -> s_bad (abs s) = false ->
+    range_of_iter rnd s = (Some d, s') ->
+    exists mn mx st r, remaining rnd (abs s) = EV mn :: EV mx :: EV st :: r /\ d = PRange mn mx st /\
+                       remaining rnd (abs s') = r /\ inv rnd s'.
+Proof. exact range_from_numbers. Qed.
+Theorem C19_count_from_numbers_refused :
+  forall (rnd : Q -> fv) s, numeric s = true ->
+    fst (lin_of_iter rnd s) = None /\ fst (fac_of_iter rnd s) = None.
+Proof. exact count_from_numbers_refused. Qed.
 
 (* ---- non-vacuity *)
 Definition ex_lin : lin := {| l_base := Fin 0; l_step := dyadic 1 (-2); l_elem := 5; l_pos := 2 |}.
@@ -193,5 +279,34 @@ Print Assumptions C19_linear_closed_form.
 Print Assumptions C19_linear_first.
 Print Assumptions C19_linear_last.
 Print Assumptions C19_linear_equal_steps.
-Print Assumptions C19_accepted_in_grammar.
+Example C19_ex_in_grammar : create_form rnd64 ex_text (PLin 4 (Fin 0) (Fin 1)).
+Proof. apply create_sound. vm_compute. reflexivity. Qed.
+Example C19_ex_denotes :
+  desc_denotes rnd64 (PLin 3 (Fin 0) (Fin 1)) [EV (Fin 0); EV (Fin (1#2)); EV (Fin 1)].
+Proof. split; [discriminate|]. vm_compute. reflexivity. Qed.
+(* a range fed from a boundary source 0,1,1,9: min 0, max 1, step 1; the 9 is left; two elements are too few *)
+Example C19_ex_range_feed :
+  let src := SBnd {| b_left := Fin 0; b_inter := Fin 1; b_right := Fin 9; b_elem := 4; b_pos := 0 |} in
+  fst (range_of_iter rnd64 src) = Some (PRange (Fin 0) (Fin 1) (Fin 1)) /\
+  remaining rnd64 (abs (snd (range_of_iter rnd64 src))) = [EV (Fin 9)] /\
+  fst (range_of_iter rnd64 (SLin {| l_base := Fin 0; l_step := Fin 1; l_elem := 2; l_pos := 0 |})) = None.
+Proof. vm_compute. repeat split; reflexivity. Qed.
+Example C19_ex_qpoly : (qpoly [(1, 0); (2, 0); (3, 0)] 2 == 11)%Q.
+Proof. vm_compute. reflexivity. Qed.
+
+Print Assumptions C19_range_from_numbers.
+Print Assumptions C19_count_from_numbers_refused.
+Print Assumptions C19_accepted_iff_in_grammar.
 Print Assumptions C19_malformed_refused.
+Print Assumptions C19_grammar_unambiguous.
+Print Assumptions C19_profile_iff_in_grammar.
+Print Assumptions C19_poly_accepted_in_grammar.
+Print Assumptions C19_poly_in_grammar_accepted.
+Print Assumptions C19_build_denotes.
+Print Assumptions C19_created_denotes.
+Print Assumptions C19_profile_denotes.
+Print Assumptions C19_poly_exact.
+Print Assumptions C19_values_linear_spec.
+Print Assumptions C19_values_bound_spec.
+Print Assumptions C19_values_small.
+Print Assumptions C19_values_linear_exact.
